@@ -34,6 +34,8 @@ def load_property(prop):
     bounded = [k() for k in getattr(mod, "BOUNDED", [])]
     extra = list(getattr(mod, "EXTRA", []))
     notes = dict(getattr(mod, "NOTES", {}))
+    _STATE["lemmas"] = [k() for k in getattr(mod, "LEMMAS", [])]
+    _STATE["specfns"] = list(getattr(mod, "SPECFNS", []))
     return mod, contracts, bounded, extra, notes
 
 
@@ -60,6 +62,20 @@ _STATE = {}
 
 def _task(args):
     kind, idx, tier, seed, extra = args
+    if os.environ.get("PYVC_DEBUG"):
+        print("[pyvc] task %s %s %s start" % (kind, idx, extra), file=sys.stderr, flush=True)
+        import atexit
+        t_start = time.time()
+    try:
+        return _task_inner(args)
+    finally:
+        if os.environ.get("PYVC_DEBUG"):
+            print("[pyvc] task %s %s %s end %.1fs" % (kind, idx, extra, time.time() - t_start), file=sys.stderr,
+                  flush=True)
+
+
+def _task_inner(args):
+    kind, idx, tier, seed, extra = args
     try:
         if kind == "sym":
             c = _STATE["contracts"][idx]
@@ -83,6 +99,12 @@ def _task(args):
         if kind == "extra":
             fn = _STATE["extra"][idx]
             return kind, idx, fn(tier, seed)
+        if kind == "lemma":
+            from pyvc import spec
+            return kind, idx, spec.lemma_run(_STATE["lemmas"][idx], tier).asdict()
+        if kind == "specfn":
+            f = _STATE["specfns"][idx]
+            return kind, idx, {"name": f.name, "bad": [repr(b) for b in f.selftest()], "tests": len(f.tests)}
     except Exception as e:
         return "error", (kind, idx), "%r\n%s" % (e, traceback.format_exc())
     return "error", (kind, idx), "unknown task"
@@ -167,6 +189,10 @@ def main(argv=None):
             tasks.append(("bounded", i, a.tier, seed, 900 if thorough else 45))
     for i, e in enumerate(extra):
         tasks.append(("extra", i, a.tier, seed, None))
+    for i, l in enumerate(_STATE.get("lemmas", [])):
+        tasks.append(("lemma", i, a.tier, seed, None))
+    for i, l in enumerate(_STATE.get("specfns", [])):
+        tasks.append(("specfn", i, a.tier, seed, None))
     results = []
     if a.jobs <= 1 or len(tasks) <= 1:
         results = [_task(t) for t in tasks]
@@ -181,6 +207,7 @@ def main(argv=None):
     diffs = {}
     canaries = {}
     extras = {}
+    lemma_res = {}
     errors = []
     for kind, idx, r in results:
         if kind == "error":
@@ -197,6 +224,11 @@ def main(argv=None):
             canaries[idx] = r
         elif kind == "extra":
             extras[idx] = r
+        elif kind == "lemma":
+            lemma_res[idx] = r
+        elif kind == "specfn":
+            if r["bad"]:
+                errors.append("spec function %s: SMT and Python definitions disagree on %s" % (r["name"], r["bad"][:3]))
 
     violations = []
     undecided = []
@@ -210,6 +242,21 @@ def main(argv=None):
     bounded_stats = []
     checker_errors = list(errors)
 
+    for i, r in sorted(lemma_res.items()):
+        functions.append({"function": r["function"], "sha256": None, "paths": 1, "obligations": len(r["obligations"]),
+                          "status": "error" if r["error"] else "proved" if not r["violations"] and not r["undecided"] else "open"})
+        if r["error"]:
+            checker_errors.append("%s: %s" % (r["contract"], r["error"]))
+        obligations.extend(r["obligations"])
+        solver_s += r["solver_s"]
+        for o in r["obligations"]:
+            bk = backends.setdefault(o["backend"], [0, 0.0])
+            bk[0] += 1
+            bk[1] += o["seconds"]
+        undecided.extend({"name": u["name"], "reason": "lemma not proved: " + u["verdict"]} for u in r["undecided"])
+        for v in r["violations"]:
+            # a lemma is a statement about spec functions only: a refuted lemma is a wrong sidecar, not a code defect
+            checker_errors.append("lemma refuted: %s %s" % (v["obligation"], v.get("model", "")[:400]))
     for i, c in enumerate(contracts):
         r = sym.get(i)
         if r is not None:
